@@ -9,6 +9,7 @@ import WhVerif.Lemmas.C07CompleteReplay
 import WhVerif.Lemmas.C07Pipe
 import WhVerif.Lemmas.C07Pref
 import WhVerif.Lemmas.C07Opts
+import WhVerif.Lemmas.C07Cov
 /-!
 # C07 — read selection never exceeds the coverage cap and leaves no admissible read out
 
@@ -487,5 +488,62 @@ theorem solver_table_bound (k : Int) (members : List MemberIn) (os : List Sample
   simp only [capAccepted, decide_eq_true_eq] at hacc
   exact ⟨Nat.pow_le_pow_right (by omega) (family_merged_cap k members os h hk q),
     Nat.pow_le_pow_right (by omega) (by omega)⟩
+
+/-! ## the coverage monitor as coded: an array of counters (`Model/C07Cov.lean`) — every cap, every depth
+
+`cap_invariant` & co. are about the history abstraction `Cov` of the monitor.  The four theorems below are about the class
+as it is written (`[0] * length`, `coverage[i] += 1`, `max(coverage[begin:end])`), with the counter arithmetic as a
+parameter: `none` = Python ints (the code), `some b` = `b`-bit counters that wrap. -/
+
+/-- **the counters are exact** for every number of calls: with Python ints, after ANY sequence of guarded calls (the
+`max_coverage_in_range(b, e) >= k` test followed by `add_read(b, e)`), `coverage[i]` is the number of admitted calls whose
+range contains `i` — the array IS the history abstraction `Cov.at` of `Model/C07.lean`, for every cap `k` and however deep
+the pile-up -/
+theorem monitor_exact (k n : Nat) (calls : List (Nat × Nat)) (i : Nat) (hi : i < n) :
+    (Mon.guardedRun none k n calls).cov[i]? = some (Mon.count (Mon.guardedRun none k n calls).admitted i) :=
+  ((Mon.good_run k n calls _ (Mon.good_init k n)).2 i hi).1
+
+/-- **the guard keeps the cap**: with Python ints no variant index is ever inside more than `k` admitted calls, for EVERY
+cap `k` (no bound like 23 or 255 is needed) and every sequence of calls -/
+theorem monitor_guard_keeps_cap (k n : Nat) (calls : List (Nat × Nat)) (i : Nat) (hi : i < n) :
+    Mon.count (Mon.guardedRun none k n calls).admitted i ≤ k :=
+  ((Mon.good_run k n calls _ (Mon.good_init k n)).2 i hi).2
+
+/-- **the test of the callers is the one of the model**: `max(coverage[b:e]) >= k` holds iff some counter inside the range
+is `≥ k` (`blocked` of `Model/C07.lean`) -/
+theorem monitor_test_is_blocked (cov : List Nat) (b e k m : Nat) (h : Mon.maxIn cov b e = some m) :
+    k ≤ m ↔ ∃ i, b ≤ i ∧ i < e ∧ ∃ x, cov[i]? = some x ∧ k ≤ x :=
+  Mon.maxIn_ge cov b e k m h
+
+/-- **a narrowed counter type never blocks a cap it cannot represent**: with `b`-bit counters and ANY cap `k ≥ 2^b`, every
+call (non-empty range inside the array) is admitted, whatever was admitted before -/
+theorem narrow_monitor_never_blocks (b k n : Nat) (hk : 2 ^ b ≤ k) (calls : List (Nat × Nat))
+    (hc : ∀ c ∈ calls, c.1 < c.2 ∧ c.2 ≤ n) :
+    (Mon.guardedRun (some b) k n calls).admitted = calls.reverse := by
+  have := (Mon.narrow_run b k n hk calls hc ⟨Mon.init n, []⟩ (Mon.small_init b n)).2
+  simpa [Mon.guardedRun] using this
+
+/-- … so the cap IS exceeded: for every width `b` and every cap `k ≥ 2^b`, `k + 1` reads over the same two variants are all
+admitted by the `b`-bit monitor (variant 0 is then spanned `k + 1 > k` times), while the monitor of the code (Python ints)
+admits exactly `k` of them (`monitor_guard_keeps_cap`; instance below) -/
+theorem narrow_monitor_exceeds_cap (b k : Nat) (hk : 2 ^ b ≤ k) :
+    Mon.count (Mon.guardedRun (some b) k 2 (List.replicate (k + 1) (0, 2))).admitted 0 = k + 1 := by
+  rw [narrow_monitor_never_blocks b k 2 hk _ (by
+    intro c hc
+    rw [List.eq_of_mem_replicate hc]
+    exact ⟨by decide, Nat.le_refl _⟩)]
+  simp [Mon.count, Mon.contains, List.countP_replicate]
+
+-- non-vacuity: `uint8`-like counters (b = 3 for a small instance), cap 8 = 2^3, 9 reads: all 9 admitted, counter wrapped to 1;
+-- the code (Python ints) admits 8 and its counters say 8
+example : (Mon.guardedRun (some 3) 8 2 (List.replicate 9 (0, 2))).admitted.length = 9
+    ∧ (Mon.guardedRun (some 3) 8 2 (List.replicate 9 (0, 2))).cov = [1, 1]
+    ∧ (Mon.guardedRun none 8 2 (List.replicate 9 (0, 2))).admitted.length = 8
+    ∧ (Mon.guardedRun none 8 2 (List.replicate 9 (0, 2))).cov = [8, 8] := by decide
+example : Mon.count (Mon.guardedRun none 2 3 [(0, 2), (1, 3), (0, 3), (0, 2)]).admitted 1 = 2
+    ∧ (Mon.guardedRun none 2 3 [(0, 2), (1, 3), (0, 3), (0, 2)]).cov[1]? = some 2 := by decide
+example : Mon.maxIn [1, 4, 2] 0 2 = some 4 ∧ ((3 ≤ 4) ↔ ∃ i, 0 ≤ i ∧ i < 2 ∧ ∃ x, [1, 4, 2][i]? = some x ∧ 3 ≤ x) :=
+  ⟨by decide, fun _ => ⟨1, by decide, by decide, 4, by decide, by decide⟩, fun _ => by decide⟩
+example : (2 : Nat) ^ 8 ≤ 256 ∧ ∀ c ∈ [((0 : Nat), (2 : Nat)), (1, 3)], c.1 < c.2 ∧ c.2 ≤ 3 := by decide
 
 end WhVerif.Props.C07
